@@ -60,6 +60,8 @@ func verifYield()
 func verifJoin()
 func verifMapOrder(on bool)
 func verifNote(msg string)
+func verifIteByte(c bool, a, b byte) byte
+func verifIteU64(c bool, a, b uint64) uint64
 `
 
 func harnessPath(h string) string {
@@ -145,6 +147,7 @@ type runOpts struct {
 	Known     map[string]string // known-finding id -> "exclude" | "assume"
 	SmtLog    string
 	ConcCap   int
+	MaxWallS  int
 }
 
 type runResult struct {
@@ -169,6 +172,9 @@ func runEntry(prog *ssa.Program, fn *ssa.Function, o runOpts) *runResult {
 		o.ConcCap = 64
 	}
 	q := newWorkQueue(o.MaxPaths)
+	if o.MaxWallS > 0 {
+		q.deadline = time.Now().Add(time.Duration(o.MaxWallS) * time.Second)
+	}
 	exs := make([]*Explorer, o.Workers)
 	var wg sync.WaitGroup
 	tRun := time.Now()
